@@ -8,7 +8,8 @@ the very predicates the driver `drv_c05` evaluates on the implementation's own o
 `trace env (init c now) h` is the run of history `h` from the empty node; `env` is the environment
 (outcome of every `Send`, iteration order of the CLA manager, PRoPHET/DTLSR routing oracle) and is
 universally quantified everywhere, as are the routing algorithm (`c.algo`, `c.mule`), the number of peers
-and the history.
+and the history — EVERY list of events, without any domain hypothesis. `Cur c` says that the variant
+flags of the model are those of the code as it is (`gen_variant`).
 -/
 import Dtn7.Model.Node
 import Dtn7.Model.NodeSpec
@@ -17,6 +18,8 @@ import Dtn7.Lemmas.NodeC05
 import Dtn7.Lemmas.NodeDirect
 import Dtn7.Lemmas.NodeSched
 import Dtn7.Lemmas.NodeSkip
+import Dtn7.Lemmas.NodeFull
+import Dtn7.Lemmas.NodeFullDirect
 import Dtn7.Gen.C05
 
 namespace Dtn7.Props.C05
@@ -161,23 +164,32 @@ theorem gen_failure_reports :
 
 /-! ## The property -/
 
-/-- **Retention** (`retained_until_sent`, proved for the histories of `Domain`, see the witness below
-for the excluded class). For every routing algorithm, every environment and every history in which
-applications submit bundles with pairwise different (source, creation time) and sequence number 0 and
-peers deliver bundles of other (source, creation time): after every event, every bundle that was
-accepted for forwarding (submitted with a source of this node, or received with a new ID; destination
-not this node), whose lifetime has not ended, that is not refused for cause (hop limit, unknown block
-demanding deletion) and of which no copy was handed successfully to a convergence layer yet, is in the
-store and marked pending. -/
-theorem retained_until_sent_partial (c : Cfg) (hfix : c.holdFix = true) (hexp : c.expiryNow = true)
-    (env : Env) (now : Nat) (h : List Event) (hdom : Domain h) :
-    firstFail retainedFail c (SpecSt.init now) 0 ((trace env (init c now) h).map obsOf) = none :=
-  retained_run c hfix hexp env h [] _ _ 0 (by simpa using hdom) (rinv_init c now)
+/-- The variant flags the regenerated facts select (`gen_variant`) are exactly `Cur`. -/
+theorem cur_of_gen (c : Cfg)
+    (h1 : c.seqFirst = Dtn7.Gen.C05.seqAssignedFirst) (h2 : c.skipStored = Dtn7.Gen.C05.sendBundleSkipsStored)
+    (h3 : c.expiryNow = Dtn7.Gen.C05.expiryCountsFromNow) (h4 : c.holdFix = Dtn7.Gen.C05.dispatchingHoldsRefused) :
+    Cur c := by
+  have g := gen_variant
+  exact ⟨by rw [h1]; exact g.1, by rw [h2]; exact g.2.1, by rw [h4]; exact g.2.2.2.2.2, by rw [h3]; exact g.2.2.2.1⟩
 
-/-- The class excluded by `Domain`, in the code before the D17 repair (`seqFirst = false`): two submissions
-with one source, creation time and sequence number 0 share a store key; the second bundle is sent from
-memory to the peers that happen to be there and is never stored. With the code as it is, the step a
-submission takes is covered for every state by `submit_retained_any_state` below. -/
+/-- **Retention** (`retained_until_sent`, FULL STRENGTH). For the code as it is, for every routing algorithm
+(and the sensor-mule wrapper), every environment — every outcome of every `Send`, every iteration order of
+the CLA manager, every routing oracle —, every number of peers and EVERY history of {submit, receive,
+peer up, peer down, retry tick, clean tick, restart} — any bundles, in particular any number of
+submissions with one source and creation time (same millisecond, zero creation time), submissions of a
+bundle the node also received, restarts anywhere —: after every event, every bundle that was accepted for
+forwarding (submitted with a source of this node, or received under an ID the node did not hold;
+destination not this node), whose lifetime has not ended, that is not refused for cause (hop limit,
+unknown block demanding deletion) and of which no copy was handed successfully to a convergence layer
+yet, is in the store — a submitted bundle under the ID the node assigned to it, this very bundle — and
+marked pending. -/
+theorem retained_until_sent (c : Cfg) (hc : Cur c) (env : Env) (now : Nat) (h : List Event) :
+    firstFail retainedFail c (SpecSt.init now) 0 ((trace env (init c now) h).map obsOf) = none :=
+  retained_run_full c hc env h _ _ 0 (rinvF_init c now)
+
+/-- What `Cur` is needed for — the code before the D17 repair (`seqFirst = false`): two submissions with one
+source, creation time and sequence number 0 share a store key; the second bundle is sent from memory to
+the peers that happen to be there and is never stored. -/
 theorem same_ms_lost_witness :
     let c : Cfg := { self := 1, algo := .epidemic, mule := false, sensorNodes := [], sprayL := 3, bcast := ⟨999, 0⟩,
                      seqFirst := false, skipStored := false, expiryNow := true, dtlsrFail := true, holdFix := true }
@@ -215,16 +227,15 @@ theorem hold_witness :
       = some (2, "retained-not-pending") := by
   decide
 
-/-- **Direct delivery** (`direct_when_connected`). After `peerUp` and after `retryTick` every waiting
-bundle whose destination node is a connected peer was handed to every CLA of that peer. The only way
-this does not happen is the gate of epidemic routing (every connected sender is already in the bundle's
-sent list, i.e. the bundle came from its own destination), which the Spec reports as a class of its own
-(`direct-not-sent-all-peers-in-sent-list`). -/
-theorem direct_when_connected (c : Cfg) (hfix : c.holdFix = true) (hexp : c.expiryNow = true)
-    (env : Env) (now : Nat) (h : List Event) (hdom : Domain h) (j : Nat) :
+/-- **Direct delivery** (`direct_when_connected`, every history). After `peerUp` and after `retryTick` every
+waiting bundle whose destination node is a connected peer was handed to every CLA of that peer. The only
+way this does not happen is the gate of epidemic routing (every connected sender is already in the
+bundle's sent list, i.e. the bundle came from its own destination), which the Spec reports as a class of
+its own (`direct-not-sent-all-peers-in-sent-list`, known finding). -/
+theorem direct_when_connected (c : Cfg) (hc : Cur c) (env : Env) (now : Nat) (h : List Event) (j : Nat) :
     firstFail directFail c (SpecSt.init now) 0 ((trace env (init c now) h).map obsOf)
       ≠ some (j, "direct-not-sent") :=
-  (clauses_run c hfix hexp env h [] _ _ 0 (by simpa using hdom) (rinv_init c now)).2 j
+  (clauses_run c hc env h _ _ 0 (rinvF_init c now)).2 j
 
 /-- The gate: a bundle that came from its destination is not dispatched while only that peer is connected. -/
 theorem direct_gate_witness :
@@ -238,30 +249,29 @@ theorem direct_gate_witness :
       = some (1, "direct-not-sent-all-peers-in-sent-list") := by
   decide
 
-/-- **Epidemic flooding** (`epidemic_floods`) and the store part of **restart survival**: under plain
-epidemic routing, after `peerUp p` every waiting bundle whose sent list does not contain `p` (and whose
-destination is not connected) was handed to `p`; a restart leaves the store as it was. -/
-theorem epidemic_floods (c : Cfg) (hfix : c.holdFix = true) (hexp : c.expiryNow = true)
-    (env : Env) (now : Nat) (h : List Event) (hdom : Domain h) :
+/-- **Epidemic flooding** (`epidemic_floods`, every history) and the store part of **restart survival**:
+under plain epidemic routing, after `peerUp p` every waiting bundle whose sent list does not contain `p`
+(and whose destination is not connected) was handed to `p`; a restart leaves the store as it was. -/
+theorem epidemic_floods (c : Cfg) (hc : Cur c) (env : Env) (now : Nat) (h : List Event) :
     firstFail (fun c s o => (floodFail c s o).orElse fun _ => restartFail s o) c (SpecSt.init now) 0
       ((trace env (init c now) h).map obsOf) = none :=
-  (clauses_run c hfix hexp env h [] _ _ 0 (by simpa using hdom) (rinv_init c now)).1
+  (clauses_run c hc env h _ _ 0 (rinvF_init c now)).1
 
 /-- **Across restarts** (`survives_restart`): the statements above are about all histories, in particular
-those with restarts anywhere; a restart keeps the store and drops what lives in memory. -/
-theorem survives_restart (c : Cfg) (hfix : c.holdFix = true) (hexp : c.expiryNow = true)
-    (env : Env) (now : Nat) (h₁ h₂ : List Event) (hdom : Domain (h₁ ++ [.restart] ++ h₂)) :
+those with restarts anywhere; a restart keeps the store and drops what lives in memory (IdKeeper, spray
+bookkeeping, peers). -/
+theorem survives_restart (c : Cfg) (hc : Cur c) (env : Env) (now : Nat) (h₁ h₂ : List Event) :
     firstFail retainedFail c (SpecSt.init now) 0
       ((trace env (init c now) (h₁ ++ [.restart] ++ h₂)).map obsOf) = none ∧
     firstFail (fun c s o => (floodFail c s o).orElse fun _ => restartFail s o) c (SpecSt.init now) 0
       ((trace env (init c now) (h₁ ++ [.restart] ++ h₂)).map obsOf) = none :=
-  ⟨retained_until_sent_partial c hfix hexp env now _ hdom, epidemic_floods c hfix hexp env now _ hdom⟩
+  ⟨retained_until_sent c hc env now _, epidemic_floods c hc env now _⟩
 
 theorem restart_keeps_store (env : Env) (n : Node) :
     (step env n .restart).1.store = n.store ∧ (step env n .restart).1.peers = [] ∧
     (step env n .restart).1.spray = [] ∧ (step env n .restart).1.idk = [] := ⟨rfl, rfl, rfl, rfl⟩
 
-/-- **Clock-less bundles** (`zero_time_not_swept`): `retained_until_sent_partial` covers bundles with
+/-- **Clock-less bundles** (`zero_time_not_swept`): `retained_until_sent` covers bundles with
 creation time 0 and an age block (their lifetime is counted from the reception); the expiry the store
 computes does not end before it. -/
 theorem zero_time_not_swept (c : Cfg) (hexp : c.expiryNow = true) (t at_ : Nat) (b : Bundle)
@@ -286,8 +296,8 @@ number first, stored numbers skipped, refused dispatching holds the bundle) and 
 store, any IdKeeper state, in particular the empty IdKeeper after a restart while bundles numbered before
 the restart still wait — a submitted bundle (source of this node, destination elsewhere, not refused
 for cause) is, after `SendBundle`, either handed successfully to a convergence layer or in the store under
-the ID the node assigned to it, marked pending, with the expiry of its lifetime. No domain hypothesis:
-this is the step that `retained_until_sent_partial` could only take for histories without ID collisions. -/
+the ID the node assigned to it, marked pending, with the expiry of its lifetime. This is the step of
+`retained_until_sent` for a submission, stated for an arbitrary state (also one no history reaches). -/
 theorem submit_retained_any_state (env : Env) (b : Bundle) (n : Node) (hfix : n.cfg.holdFix = true)
     (hseq : n.cfg.seqFirst = true) (hskip : n.cfg.skipStored = true)
     (hsrc : hasEndpoint n.cfg b.src = true) (hf : forwardable n.now b) (hdst : hasEndpoint n.cfg b.dst = false) :
@@ -402,13 +412,14 @@ private def ex_b2 : Bundle :=
   { tag := 2, src := ⟨7, 0⟩, ts := 0, seq := 0, dst := ⟨3, 1⟩, prev := some ⟨2, 0⟩, lifetime := 604800000,
     hop := some (8, 2), age := some 1000, delBlock := false, bsCopies := none }
 
-/-- A history of the domain with submissions, receptions (twice the same ID), peers, a failure-prone
-environment, ticks and a restart. -/
-example : Domain [.submit ex_b1, .receive ex_b2 none, .receive ex_b2 none, .peerUp ⟨1, ⟨2, 0⟩⟩, .retryTick,
-    .cleanTick 2000, .restart, .peerUp ⟨2, ⟨3, 0⟩⟩] :=
-  ⟨by decide, by decide, by decide⟩
+/-- `Cur` is satisfiable: the configuration the driver builds from the regenerated facts. -/
+private def ex_cfg : Cfg :=
+  { self := 1, algo := .epidemic, mule := false, sensorNodes := [], sprayL := 3, bcast := ⟨999, 0⟩,
+    seqFirst := true, skipStored := true, expiryNow := true, dtlsrFail := true, holdFix := true }
+example : Cur ex_cfg := ⟨rfl, rfl, rfl, rfl⟩
 
-/-- In that history obligations exist (the clauses are not vacuous): after the second event two bundles
+/-- Obligations exist (the clauses are not vacuous): in this history — submissions, receptions (twice the
+same ID), peers, a failure-prone environment, ticks and a restart — after the second event two bundles
 wait, pending, and the direct delivery to node 3 happens when it connects. -/
 example :
     let c : Cfg := { self := 1, algo := .epidemic, mule := false, sensorNodes := [], sprayL := 3, bcast := ⟨999, 0⟩,
